@@ -63,6 +63,18 @@ class _SolverRegex:
         return None
 
 
+    def match(self, text: Any) -> Any:
+        """Prefix match: some prefix of ``text`` matches completely (the key pattern has no anchors or look-arounds)."""
+        from vf.sym import codepoints, regex_match_units
+        cps = codepoints(text)
+        found: Any = False
+        for k in range(len(cps) + 1):
+            found = found | regex_match_units(self.pattern, cps[:k], "fullmatch")
+        if found:
+            return self
+        return None
+
+
 def _install_stubs() -> None:
     specific_implementations.dict = ScanDict  # type: ignore
     specific_implementations.IMPLEMENTATION_KEY_RE = _SolverRegex(_REAL_KEY_RE)  # type: ignore
